@@ -162,20 +162,26 @@ def sumCheck (H : Bytes → Bytes) (pr : Proj) (t : Task) (dry : Bool) (s : Stat
 
 def maxOf (l : List Nat) : Nat := l.foldl Nat.max 0
 
-/-- `TimestampChecker.IsUpToDate`: the marker joins the generates if it exists, else is
-created (if not dry); no generates at all ⇒ `false`; any source newer than the newest
-generate ⇒ update; marker touched (if not dry). -/
+/-- `TimestampChecker.IsUpToDate` (as patched by TS1/TS2), in statement order: every non-negated
+`generates` entry must match an existing file (`gensOk`, as for checksum — computed, not yet
+returned); the marker joins the generates if it exists, else it is CREATED (if not dry, mtime =
+now) without joining them; nothing to compare with ⇒ `false` (the marker just created stays);
+`upToDate` = no source newer than the newest generate/marker AND the generates exist; the marker
+is TOUCHED only when not dry and NOT `upToDate` (the task is going to run).  A check that ends in
+"up to date" therefore leaves an existing marker exactly as it was. -/
 def tsCheck (t : Task) (dry : Bool) (now : Nat) (s : State) : State × Bool :=
   let srcs := srcsNow t s.files
   let gens := globs (nowPats t.generates s.files)
+  let ge := gensOk t s.files
   let mk := aget s.marks (tsKey t)
   let gts := gens.map (mtimeOf s.files) ++ (match mk with | some m => [m] | none => [])
   let s1 := if dry then s else if mk.isSome then s else { s with marks := aset s.marks (tsKey t) now }
   if gts.isEmpty then (s1, false)
   else
     let upd := srcs.any (fun p => decide (maxOf gts < mtimeOf s.files p))
-    let s2 := if dry then s1 else { s1 with marks := aset s1.marks (tsKey t) now }
-    (s2, !upd)
+    let up := !upd && ge
+    let s2 := if dry || up then s1 else { s1 with marks := aset s1.marks (tsKey t) now }
+    (s2, up)
 
 def srcCheck (H : Bytes → Bytes) (pr : Proj) (t : Task) (dry : Bool) (now : Nat) (s : State) : State × Bool :=
   match t.method with
@@ -191,11 +197,13 @@ def isUpToDate (H : Bytes → Bytes) (pr : Proj) (t : Task) (dry : Bool) (now : 
   let r := if soSet then srcCheck H pr t dry now s else (s, false)
   (r.1, if stSet && soSet then a && r.2 else if stSet then a else if soSet then r.2 else false)
 
-/-- `SourcesCheckable.OnError` through `Executor.statusOnError` -/
+/-- `SourcesCheckable.OnError` through `Executor.statusOnError`: the checksum file / (since TS3) the
+timestamp marker of a task with sources is removed -/
 def onError (t : Task) (s : State) : State :=
   match t.method with
   | .checksum => if t.sources.isEmpty then s else { s with sums := adel s.sums (sumKey t) }
-  | _ => s
+  | .timestamp => if t.sources.isEmpty then s else { s with marks := adel s.marks (tsKey t) }
+  | .none => s
 
 /-! ### one invocation -/
 
@@ -243,7 +251,8 @@ def mkdirTask (t : Task) (s : State) : State :=
 
 /-- `RunTask` after the up-to-date check: prompt, mkdir, commands.  A declined prompt (or no
 terminal) goes through `statusOnError` before the task is reported cancelled: the checksum the
-check has just recorded is removed again (`onError`; a no-op for method timestamp). -/
+check has just recorded — or the timestamp marker it has just created/touched — is removed again
+(`onError`). -/
 def runBody (cfg : Cfg) (H : Bytes → Bytes) (pr : Proj) (i : Nat) (t : Task) (dry : Bool) (e : Env)
     (s : State) : State × Obs :=
   if t.prompt && !dry && !e.yes then (onError t s, ⟨.cancelled, false, [], []⟩)
